@@ -118,6 +118,8 @@ def _worker_chunk(args):
             out["features"][f] += 1
         if r.sample is not None and len(out["samples"]) < 2:
             out["samples"].append(jsonable(r.sample))
+        elif "fallback" not in out:
+            out["fallback"] = {"case": repr(case)[:600]}
         for f in r.failures:
             f.case = case if f.case is None else f.case
             if f.signature is None and hasattr(mod, "classify"):
@@ -184,6 +186,8 @@ class Run:
         for s in out["samples"]:
             if len(self.samples) < 5:
                 self.samples.append(s)
+        if "fallback" in out and not self.extra.get("_fallback_sample"):
+            self.extra["_fallback_sample"] = out["fallback"]
         self.failures.extend(out["failures"])
         self.errors.extend(out["errors"])
 
@@ -216,6 +220,9 @@ def write_evidence(run: Run, violations: int, scratch: bool = False):
     if run.level == "translation_validation":
         cov["programs"] = run.extra.pop("programs", run.cases_done)
         cov["disagreements_checked"] = run.extra.pop("disagreements_checked", run.evaluations)
+    fb = run.extra.pop("_fallback_sample", None)
+    if not cov["samples"] and fb is not None:
+        cov["samples"] = [fb]
     cov.update(run.extra)
     ev = {
         "property_id": run.property_id,
